@@ -4,6 +4,9 @@ import (
 	"os"
 
 	"verif/mc/core"
+	_ "verif/mc/props/c02"
+	_ "verif/mc/props/c05"
+	_ "verif/mc/props/c06"
 	_ "verif/mc/props/c07"
 	_ "verif/mc/props/c09"
 	_ "verif/mc/props/c15"
